@@ -489,6 +489,14 @@ func runC17(c *Cfg) {
 	}
 	// sequential batches that end early (stop mode after a failure; cancellation inside an item): what was executed
 	// before keeps exactly the outcome exec returned, nil values included
+	for _, n := range []int{1, 2, 3} { // tiny batches whose every item hands back an error Result / fails: the slot is what exec returned, at every size and concurrency
+		for _, cc := range []int{0, 1, 4} {
+			for v := 0; v < 4; v++ {
+				lb = append(lb, &BigBatchCase{Family: "batch-per-item-outcomes", N: n, C: cc, ExecR: true, Builder: v&1 != 0, FailAll: true, FailAs: []string{"error-result", "error"}[v/2]})
+				lb = append(lb, &BigBatchCase{Family: "batch-per-item-outcomes", N: n, C: cc, ExecR: true, Builder: v&1 != 0, FailAll: true, FailAs: "error-then-error-result", Retries: 2 + v/2})
+			}
+		}
+	}
 	for _, n := range []int{6, 20, 70} { // error Results among the items prep returns
 		for _, cc := range []int{0, 1, 3} {
 			for v := 0; v < 4; v++ {
@@ -642,6 +650,7 @@ type BigBatchCase struct {
 	Stop      bool   `json:"stop,omitempty"`      // stop-on-error mode (sequential cases only: what was executed before the failure keeps its outcome)
 	NilEvery  int    `json:"nil_every,omitempty"` // > 0: items i with i%NilEvery == 1 succeed with a nil value
 	ErrItemEvery int `json:"err_item_every,omitempty"` // > 0: items i with i%ErrItemEvery == 4 arrive from prep as error Results: still items — exec is called for them and its outcome is their result
+	FailAll     bool `json:"fail_all,omitempty"`     // every item fails (tiny batches: 1..3 items)
 	PrepAny     bool `json:"prep_any,omitempty"`     // prep through the constructor option (WithPrepFuncAny), returning a plain list instead of []Result
 	PostAppends bool `json:"post_appends,omitempty"` // post appends to the item list it was handed before it reads the results
 	Retries   int    `json:"retries,omitempty"`   // > 0: per-item retry budget; FailAs "error-then-error-result": a failing item's first attempt returns (_, err), its later attempts (NewErrorResult(err), nil)
@@ -664,7 +673,7 @@ func runBigBatchCase(cs *BigBatchCase) (fs []finding) {
 		}
 	}()
 	errItem := func(i int) bool { return cs.ErrItemEvery > 0 && i%cs.ErrItemEvery == 4 }
-	fails := func(i int) bool { return cs.FailEvery > 0 && i%cs.FailEvery == 3 && !errItem(i) }
+	fails := func(i int) bool { return (cs.FailAll || (cs.FailEvery > 0 && i%cs.FailEvery == 3)) && !errItem(i) }
 	outs := make([]*int, cs.N) // what exec returned for item i (a fresh pointer per item)
 	errOuts := make([]error, cs.N) // the error inside the error Result exec handed back for item i
 	attempts := make([]int, cs.N)
